@@ -377,6 +377,24 @@ Section EVAL.
     else if String.eqb name "float" then Some ("float", TF F32)
     else if String.eqb name "long" then Some ("long", TI 64 true)
     else if String.eqb name "size_t" then Some ("ulong", TI 64 false)
+    (* the remaining registered arithmetic types (LP64: the harness asserts the sizes): the C++ type behind each script name *)
+    else if String.eqb name "long_double" then Some ("ldouble", TF F80)
+    else if String.eqb name "unsigned_int" then Some ("uint", TI 32 false)
+    else if String.eqb name "unsigned_long" then Some ("ulong", TI 64 false)
+    else if String.eqb name "long_long" then Some ("llong", TI 64 true)
+    else if String.eqb name "unsigned_long_long" then Some ("ullong", TI 64 false)
+    else if String.eqb name "char" then Some ("char", TI 8 true)
+    else if String.eqb name "wchar_t" then Some ("wchar", TI 32 true)
+    else if String.eqb name "char16_t" then Some ("char16", TI 16 false)
+    else if String.eqb name "char32_t" then Some ("char32", TI 32 false)
+    else if String.eqb name "int8_t" then Some ("int8", TI 8 true)
+    else if String.eqb name "int16_t" then Some ("int16", TI 16 true)
+    else if String.eqb name "int32_t" then Some ("int", TI 32 true)
+    else if String.eqb name "int64_t" then Some ("long", TI 64 true)
+    else if String.eqb name "uint8_t" then Some ("uint8", TI 8 false)
+    else if String.eqb name "uint16_t" then Some ("uint16", TI 16 false)
+    else if String.eqb name "uint32_t" then Some ("uint", TI 32 false)
+    else if String.eqb name "uint64_t" then Some ("ulong", TI 64 false)
     else None.
 
   Definition builtin_call (name : string) (args : list dloc) : prog dloc :=
@@ -394,10 +412,7 @@ Section EVAL.
             | _ => dispatch_error name
             end
         | None =>
-        if existsb (String.eqb name) ["long_double"; "unsigned_int"; "unsigned_long"; "long_long"; "unsigned_long_long"; "char"; "wchar_t"; "char16_t"; "char32_t";
-                                       "int8_t"; "int16_t"; "int32_t"; "int64_t"; "uint8_t"; "uint16_t"; "uint32_t"; "uint64_t"]
-        then unsup ("arithmetic constructor " ++ name)
-        else if String.eqb name "print" then s <- string_of_value a ;; Prim (POut (s ++ newline)) ;;; void_var
+        if String.eqb name "print" then s <- string_of_value a ;; Prim (POut (s ++ newline)) ;;; void_var
         else if String.eqb name "puts" then s <- string_of_value a ;; Prim (POut s) ;;; void_var
         else if String.eqb name "to_string" then s <- string_of_value a ;; new_value (OStr s) false true
         else if String.eqb name "throw" then throw (EBoxed a)
